@@ -312,3 +312,19 @@ Definition obs_query (md : mode) (p : prov) (q arg : N) : list Z :=
   | Panic _ => [-98]%Z
   | Hang => [-99]%Z
   end.
+
+(* the bodies of eeprom_read_raw (exact = false), eeprom_read (exact = true) and
+   eeprom_write_dangerously (write = true; the hook writes a pattern) *)
+Definition obs_raw (p : prov) (w : N) (n : nat) (is_exact is_write : bool) : list Z :=
+  let r := start_at w (N.of_nat n) in
+  let fin {A} (x : res serr A) (f : A -> list Z) : list Z :=
+    match x with Ok a => f a | Err e => ((-1) :: obs_err e)%Z | Panic _ => [-98]%Z | Hang => [-99]%Z end in
+  if is_write then
+    fin (range_write_all p r (pattern 0 n))
+        (fun pr => (0 :: [-7] ++ concat (map (fun kv => [Z.of_N (fst kv); Z.of_N (snd kv)]) (rev (p_writes (fst pr)))))%Z)
+  else if is_exact then
+    fin (exact p r n)
+        (fun br => (0 :: map Z.of_N (fst br) ++ [-7] ++ concat (map (fun kv => [Z.of_N (fst kv); Z.of_N (snd kv)]) (rev (p_writes p))))%Z)
+  else
+    fin (range_read p r n)
+        (fun br => (0 :: Z.of_nat (length (fst br)) :: map Z.of_N (fst br) ++ [-7] ++ concat (map (fun kv => [Z.of_N (fst kv); Z.of_N (snd kv)]) (rev (p_writes p))))%Z).
